@@ -112,11 +112,12 @@ KeepChoices(mode, a, p, cur, mu, n, var) ==
 Verdicts(mode, mub, varb, mua, vara, mcb, mca) ==
     LET db == RAbs(RSub(mub, R(mcb)))
     IN  \* the guards against 0/0: the relative change is undefined in the published algorithm; the code
-        \* returns.  Whether a difference of two exactly equal quantities (mean fn = mean-curve peak, all
-        \* peaks equal) is *computed* as zero is a rounding matter (mean(0.08, 0.06, 0.04) # 0.06 in
-        \* binary), so the P tier leaves the verdict open there, like every other exact tie.
-        IF RIsZero(db) \/ RIsZero(varb) \/ RIsZero(vara)
-        THEN (IF mode = "P" THEN {"stop", "cont"} ELSE {"stop"})
+        \* returns.  Whether |mean fn - mean-curve peak| of two exactly equal quantities is *computed* as zero
+        \* is a rounding matter (mean(0.08, 0.06, 0.04) # 0.06 in binary), so the P tier leaves the verdict open
+        \* there, like every other exact tie.  A zero variance (all peaks equal) stays "stop": leaving it open
+        \* would make every window an edge case on every further pass (2^NW choices per pass) for no observed need.
+        IF RIsZero(varb) \/ RIsZero(vara) THEN {"stop"}
+        ELSE IF RIsZero(db) THEN (IF mode = "P" THEN {"stop", "cont"} ELSE {"stop"})
         ELSE
         LET da   == RAbs(RSub(mua, R(mca)))
             dd   == RDiv(RAbs(RSub(da, db)), db)
